@@ -9,6 +9,7 @@ CONSTANTS
   WM = 12
   ConstructSlots <- Only1
   Unbounded = FALSE
+  ViewIds <- NoViews
   Ops <- ConvOps
   EmitAll = TRUE
 VIEW View
